@@ -483,3 +483,44 @@ where
     };
     newton_raphson_onesided(x0, f0, f1)
 }
+
+// ---------------------------------------------------------------------------
+// verification hooks (read-only; compiled only with --cfg clarabel_verif)
+// ---------------------------------------------------------------------------
+#[cfg(clarabel_verif)]
+impl<T: FloatT> GenPowerCone<T> {
+    pub fn verif_is_primal_feasible(&self, s: &[T]) -> bool {
+        NonsymmetricCone::is_primal_feasible(self, s)
+    }
+    pub fn verif_is_dual_feasible(&self, z: &[T]) -> bool {
+        NonsymmetricCone::is_dual_feasible(self, z)
+    }
+    pub fn verif_barrier_primal(&mut self, s: &[T]) -> T {
+        NonsymmetricCone::barrier_primal(self, s)
+    }
+    pub fn verif_barrier_dual(&mut self, z: &[T]) -> T {
+        NonsymmetricCone::barrier_dual(self, z)
+    }
+    pub fn verif_update_dual_grad_H(&mut self, z: &[T]) {
+        NonsymmetricCone::update_dual_grad_H(self, z)
+    }
+    pub fn verif_gradient_primal(&self, g: &mut [T], s: &[T]) {
+        NonsymmetricNDCone::gradient_primal(self, g, s)
+    }
+    /// (grad, z, μ, p, q, r, d1, d2, ψ) as stored
+    #[allow(clippy::type_complexity)]
+    pub fn verif_state(&self) -> (Vec<T>, Vec<T>, T, Vec<T>, Vec<T>, Vec<T>, Vec<T>, T, T) {
+        let d = &self.data;
+        (
+            d.grad.clone(),
+            d.z.clone(),
+            d.μ,
+            d.p.clone(),
+            d.q.clone(),
+            d.r.clone(),
+            d.d1.clone(),
+            d.d2,
+            d.ψ,
+        )
+    }
+}
